@@ -76,6 +76,9 @@ def byte_parts(p, value):
         if isinstance(e, ast.Call) and u(e.func) in ("bytes", "bytearray") and len(e.args) == 1 and not e.keywords:
             if isinstance(e.args[0], (ast.List, ast.Tuple)) and not any(isinstance(x, ast.Starred) for x in e.args[0].elts):       # bytes([a, b])
                 return [("byte", u(x)) for x in e.args[0].elts]
+            if isinstance(e.args[0], (ast.List, ast.Tuple)) and all(not isinstance(x, ast.Starred) or isinstance(x.value, ast.Name) for x in e.args[0].elts):
+                # bytes((*MAGIC, a, b)): the bytes of a named byte string, spliced in, then single bytes
+                return [("bytes", x.value.id) if isinstance(x, ast.Starred) else ("byte", u(x)) for x in e.args[0].elts]
             return parts(e.args[0], depth + 1, upto)
         if isinstance(e, ast.BinOp) and isinstance(e.op, ast.Add):
             a, b = parts(e.left, depth + 1, upto), parts(e.right, depth + 1, upto)
